@@ -5,6 +5,7 @@ import (
 	"context"
 	"fmt"
 	"io"
+	"math"
 	"net/http"
 	"net/url"
 	"strings"
@@ -23,10 +24,18 @@ func newURIDecoder(file io.ReadSeeker, cfg config.Config, decodedConfigHeaders h
 			config:               cfg,
 			decodedConfigHeaders: decodedConfigHeaders,
 		},
-		scanner: bufio.NewScanner(file),
+		scanner: newLineScanner(file),
 		Header:  http.Header{},
 		pool:    &sync.Pool{New: func() any { return &ammo.Ammo{} }},
 	}
+}
+
+// newLineScanner returns a line scanner without bufio.Scanner's default limit of 64 KiB per line: the uripost, raw and
+// http/json decoders read lines of any length, and so does the uri decoder (a long URI, a long header value).
+func newLineScanner(r io.Reader) *bufio.Scanner {
+	s := bufio.NewScanner(r)
+	s.Buffer(nil, math.MaxInt)
+	return s
 }
 
 type uriDecoder struct {
@@ -107,7 +116,7 @@ func (d *uriDecoder) Scan(ctx context.Context) (DecodedAmmo, error) {
 				if err != nil {
 					return nil, err
 				}
-				d.scanner = bufio.NewScanner(d.file)
+				d.scanner = newLineScanner(d.file)
 				continue
 			}
 			return nil, d.scanner.Err()
